@@ -80,6 +80,18 @@ var c12Actions = []struct {
 	{"call-non-function", "1 | fnum", true, ""},
 	{"call-non-function", "fuser.Name()", true, ""},
 	{"call-non-function", "fstr | fuser.Name", true, ""},
+	// call targets in pipe position that evaluate to nothing at all
+	{"call-non-function", "fstr | fnil", true, ""},
+	{"call-non-function", "fstr | fmap.nokey", true, ""},
+	{"call-non-function", "fstr | fuser.Meta.nokey: 1", true, ""},
+	{"call-non-function", "fnil(1)", true, ""},
+	{"call-non-function", "fnil()", true, ""},
+	{"call-non-function", "fnil: 1", true, ""},
+	{"call-non-function", "fmap.nokey(1)", true, ""},
+	{"call-non-function", "1 + fnil(1)", true, ""},
+	{"call-non-function", "if fmap.nokey(1) }}x{{ end", true, ""},
+	{"call-non-function", "cv := fnil(1)", true, ""},
+	{"call-non-function", "upper(fuser.Meta.nokey(1))", true, ""},
 	{"argument-count", "upper()", true, ""},
 	{"argument-count", `upper("a", "b")`, true, ""},
 	{"argument-count", `"a" | upper: "b"`, true, ""},
@@ -105,6 +117,11 @@ var c12Actions = []struct {
 	{"unknown-template", "include \"/no/such/template.jet\" }}\n{{ fnum", true, ""},
 	{"yield-arg-without-value", "yield pblock(p)", true, ""},
 	{"yield-arg-without-value", "yield nblock(q)", true, ""},
+	// ... also when a variable, a global or a built-in of that name is in sight
+	{"yield-arg-without-value", "yield pblock(fnum)", true, ""},
+	{"yield-arg-without-value", "yield pblock(p=1, fstr)", true, ""},
+	{"yield-arg-without-value", "yield nblock(upper)", true, ""},
+	{"yield-arg-without-value", "yield pblock(len)", true, ""},
 	{"slot-without-pipe", "upper(_)", true, ""},
 	{"slot-without-pipe", `repeat("a", _)`, true, ""},
 	{"writer-not-last", `raw: "x" | upper`, true, "x"},
